@@ -117,7 +117,13 @@ func (c *iconn) Write(p []byte) (int, error) {
 		c.wbuf = c.wbuf[cl:]
 	}
 	c.wmu.Unlock()
-	return c.Conn.Write(p)
+	n, err := c.Conn.Write(p)
+	if err == io.ErrClosedPipe && c.d.tcpLike && atomic.LoadInt32(&c.closed) == 0 {
+		// a TCP socket accepts a write after the peer has sent its FIN; the failure shows
+		// at the next read
+		return len(p), nil
+	}
+	return n, err
 }
 
 func headerOf(head, name string) string {
@@ -134,8 +140,20 @@ func headerOf(head, name string) string {
 // when no byte is written afterwards.
 func (c *iconn) SetWriteDeadline(t time.Time) error {
 	c.d.log.add("acquire-touch", c.id, "", "")
-	return c.Conn.SetWriteDeadline(t)
+	return c.tcpLike(c.Conn.SetWriteDeadline(t))
 }
+
+// tcpLike: setting a deadline on a socket whose peer has closed is not an error (it is on a
+// net.Pipe)
+func (c *iconn) tcpLike(err error) error {
+	if err == io.ErrClosedPipe && c.d.tcpLike && atomic.LoadInt32(&c.closed) == 0 {
+		return nil
+	}
+	return err
+}
+
+func (c *iconn) SetReadDeadline(t time.Time) error { return c.tcpLike(c.Conn.SetReadDeadline(t)) }
+func (c *iconn) SetDeadline(t time.Time) error     { return c.tcpLike(c.Conn.SetDeadline(t)) }
 
 func (c *iconn) Close() error {
 	if atomic.CompareAndSwapInt32(&c.closed, 0, 1) {
@@ -157,13 +175,27 @@ type dialer struct {
 	maxConns int
 	viol     []string
 	peers    sync.WaitGroup
+	// earlyCloses counts "closebefore" exchanges; past earlyCap (if set) the peer answers,
+	// so that a client retrying without end still comes to rest and can be judged
+	earlyCloses, earlyCap int32
+	// tcpLike: writing to a connection the peer has already closed succeeds (net.Pipe fails it)
+	tcpLike bool
+	// proxy-tunnel family: which AddTLS call fails (0: none), how the proxy answers CONNECT
+	tlsCalls, tlsFailAt int32
+	connectPlan         string
 }
 
 func (d *dialer) DialTimeout(network, address string, timeout time.Duration, tlsConfig *tls.Config) (net.Conn, error) {
 	return nil, errors.New("unused")
 }
 func (d *dialer) AddTLS(conn network.Conn, tlsConfig *tls.Config) (network.Conn, error) {
-	return nil, errors.New("unused")
+	// (the proxy-tunnel family: the "handshake" either fails or leaves the connection as it is)
+	n := atomic.AddInt32(&d.tlsCalls, 1)
+	if d.tlsFailAt > 0 && n == d.tlsFailAt {
+		d.log.add("tls-handshake-error", 0, "", "")
+		return nil, errors.New("tls: handshake failure (injected)")
+	}
+	return conn, nil
 }
 func (d *dialer) DialConnection(nw, address string, timeout time.Duration, tlsConfig *tls.Config) (network.Conn, error) {
 	d.mu.Lock()
@@ -192,6 +224,21 @@ func (d *dialer) peer(c net.Conn, cid int) {
 			return
 		}
 		io.Copy(io.Discard, req.Body)
+		if req.Method == "CONNECT" {
+			d.log.add("peer-connect", cid, "", d.connectPlan)
+			switch d.connectPlan {
+			case "refuse":
+				io.WriteString(c, "HTTP/1.1 503 Service Unavailable\r\nContent-Length: 0\r\n\r\n")
+			case "close":
+				return
+			case "cut":
+				io.WriteString(c, "HTTP/1.1 200 Connection establ")
+				return
+			default:
+				io.WriteString(c, "HTTP/1.1 200 Connection established\r\n\r\n")
+			}
+			continue
+		}
 		id := req.Header.Get("X-Id")
 		plan := req.Header.Get("X-Plan")
 		if id == "" { // the Get* helper APIs take only a URL
@@ -233,7 +280,8 @@ func (d *dialer) peer(c net.Conn, cid int) {
 			d.log.add("peer-close", cid, id, plan)
 			return
 		case "okclosespelled": // the close option in another spelling / inside a list (options are case-insensitive tokens)
-			spelling := []string{"Close", "CLOSE", "close, TE", "TE, close", "keep-alive, Close"}[len(id)%5]
+			// (several Connection lines are one list)
+			spelling := []string{"Close", "CLOSE", "close, TE", "TE, close", "keep-alive, Close", "close\r\nConnection: keep-alive", "close\r\nConnection: X-Hop", "X-Hop\r\nConnection: close"}[(len(id)+int(id[len(id)-1]))%8]
 			send(fmt.Sprintf("HTTP/1.1 200 OK\r\nConnection: %s\r\nContent-Length: %d\r\n\r\n%s", spelling, len(body), body))
 			d.log.add("peer-close", cid, id, plan)
 			return
@@ -254,6 +302,10 @@ func (d *dialer) peer(c net.Conn, cid int) {
 			d.log.add("peer-close", cid, id, plan)
 			return
 		case "closebefore":
+			if n := atomic.AddInt32(&d.earlyCloses, 1); d.earlyCap > 0 && n > d.earlyCap {
+				send(fmt.Sprintf("HTTP/1.1 200 OK\r\nContent-Length: %d\r\n\r\n%s", len(body), body))
+				continue
+			}
 			d.log.add("peer-close", cid, id, plan)
 			return
 		case "midheader":
@@ -328,7 +380,7 @@ var directCloses int64
 func oneRun(w *mon.W, c *mon.Case) {
 	r := c.R
 	log := &runLog{}
-	d := &dialer{log: log, r: r.Fork(), dialFail: r.Int(0, 10, 10, 5)}
+	d := &dialer{log: log, r: r.Fork(), dialFail: r.Int(0, 10, 10, 5), tcpLike: r.Bool()}
 	maxConns := 1 + r.Intn(4)
 	wait := r.Bool()
 	stream := r.Chance(3)
@@ -714,6 +766,13 @@ func work(w *mon.W) {
 			body []byte
 		}
 		var kept []keptBody
+		// some callers keep one buffer of their own for all their (sequential) calls: after a
+		// call has returned, timed out or not, the buffer is the caller's again
+		var shared []byte
+		if r.Bool() {
+			shared = make([]byte, 0, 256)
+		}
+		var lastShared *keptBody
 		for i := 0; i < n; i++ {
 			id := fmt.Sprintf("g%d-%d", c.G, i)
 			plan := "ok"
@@ -759,6 +818,17 @@ func work(w *mon.W) {
 			if r.Chance(4) {
 				wg.Add(1)
 				go func() { defer wg.Done(); call() }()
+			} else if shared != nil && withDst {
+				url := fmt.Sprintf("http://peer/x?id=%s&plan=%s", id, plan)
+				_, body, err := hc.GetTimeout(context.Background(), shared[:0], url, timeout)
+				w.Count("get_timeout_calls_into_one_caller_buffer", 1)
+				lastShared = nil
+				if err == nil {
+					if !strings.HasPrefix(string(body), "id="+id+";") {
+						bad = fmt.Sprintf("GetTimeout(%s) into the caller's buffer returned the body %q, which answers another request", id, body)
+					}
+					lastShared = &keptBody{id, body}
+				}
 			} else {
 				call()
 			}
@@ -780,6 +850,9 @@ func work(w *mon.W) {
 			protocol.ReleaseResponse(resp)
 		}
 		hc.CloseIdleConnections()
+		if lastShared != nil && !strings.HasPrefix(string(lastShared.body), "id="+lastShared.id+";") {
+			c.Violate("returned-body-overwritten", "the body GetTimeout returned for %s (in the caller's own buffer, not used by any later call) reads %q once the earlier, timed-out calls have finished in the background; calls %v", lastShared.id, trunc(string(lastShared.body), 60), desc)
+		}
 		for _, kb := range kept {
 			if !strings.HasPrefix(string(kb.body), "id="+kb.id+";") {
 				c.Violate("returned-body-overwritten", "the body returned for %s reads %q after later, unrelated exchanges: the slice handed to the caller is still the storage of a pooled buffer; calls %v", kb.id, trunc(string(kb.body), 60), desc)
@@ -886,6 +959,107 @@ func work(w *mon.W) {
 		}
 		hc.CloseIdleConnections()
 		w.Count("cancelled_family_runs", 1)
+	})
+	// proxy-tunnel: https through a proxy. Setting the tunnel up can fail at every step (TLS to
+	// the proxy, CONNECT refused / cut / unanswered, TLS inside the tunnel): whatever happens,
+	// once the calls have returned and the idle connections are closed, no socket stays open.
+	w.Cases("proxy-tunnel", uint64(w.Pick(40, 800)), func(c *mon.Case) {
+		r := c.R
+		log := &runLog{}
+		d := &dialer{log: log, r: r.Fork(), tcpLike: r.Bool()}
+		d.connectPlan = r.Str("ok", "ok", "refuse", "close", "cut")
+		proxyScheme := r.Str("http", "https")
+		if r.Bool() {
+			d.tlsFailAt = int32(1 + r.Intn(3))
+		}
+		opts := &http1.ClientOptions{Dialer: d, MaxConns: 1 + r.Intn(3), ReadTimeout: 300 * time.Millisecond, TLSConfig: &tls.Config{InsecureSkipVerify: true}}
+		hc := http1.NewHostClient(opts).(*http1.HostClient)
+		hc.Addr = "peer:443"
+		hc.IsTLS = true
+		hc.ProxyURI = protocol.ParseURI(proxyScheme + "://proxy:3128")
+		n := 1 + r.Intn(4)
+		cfg := fmt.Sprintf("proxy=%s://proxy:3128 CONNECT=%s failing-handshake=#%d calls=%d", proxyScheme, d.connectPlan, d.tlsFailAt, n)
+		c.Detail = func() interface{} { return map[string]interface{}{"family": "proxy-tunnel", "config": cfg} }
+		okCalls := 0
+		for i := 0; i < n; i++ {
+			req, resp := protocol.AcquireRequest(), protocol.AcquireResponse()
+			id := fmt.Sprintf("t%d-%d", c.G, i)
+			req.SetRequestURI("https://peer/x")
+			req.Header.Set("X-Id", id)
+			req.Header.Set("X-Plan", "ok")
+			err := hc.Do(context.Background(), req, resp)
+			if err == nil {
+				okCalls++
+				if !strings.HasPrefix(string(resp.Body()), "id="+id+";") {
+					c.Violate("matching", "[%s] Do(%s) through the tunnel returned the body %q", cfg, id, resp.Body())
+				}
+			}
+			protocol.ReleaseRequest(req)
+			protocol.ReleaseResponse(resp)
+		}
+		w.Count("proxy_tunnel_calls", int64(n))
+		w.Count("proxy_tunnel_calls_ok", int64(okCalls))
+		hc.CloseIdleConnections()
+		for t0 := time.Now(); time.Since(t0) < 2*time.Second; time.Sleep(time.Millisecond) {
+			if hc.ConnPoolState().TotalConnNum == 0 && atomic.LoadInt32(&d.open) == 0 {
+				break
+			}
+		}
+		if ps := hc.ConnPoolState(); ps.TotalConnNum != 0 || atomic.LoadInt32(&d.open) != 0 {
+			c.Violate("conservation", "[%s] after all calls returned and CloseIdleConnections: counted connections %d, open sockets %d of %d dialled (a connection whose tunnel set-up failed is neither pooled nor closed)", cfg, ps.TotalConnNum, atomic.LoadInt32(&d.open), atomic.LoadInt32(&d.dialed))
+		}
+		w.Shape(mon.Hash64("proxy-tunnel", cfg))
+	})
+	// early-close: more concurrent GETs than connections, callers queue for a connection, and
+	// the peer (a balancer without a healthy backend) closes every connection before the first
+	// response byte. None of these connections was ever idle in the pool, so none of the
+	// failures is the "stale pooled connection" that may be retried without counting: the
+	// number of times the peer sees one request stays small.
+	w.Cases("early-close", uint64(w.Pick(12, 300)), func(c *mon.Case) {
+		r := c.R
+		log := &runLog{}
+		d := &dialer{log: log, r: r.Fork(), earlyCap: 400, tcpLike: true}
+		maxConns := 1 + r.Intn(3)
+		hc := http1.NewHostClient(&http1.ClientOptions{Dialer: d, MaxConns: maxConns, ReadTimeout: 200 * time.Millisecond, MaxConnWaitTimeout: 500 * time.Millisecond}).(*http1.HostClient)
+		hc.Addr = "peer:80"
+		n := maxConns + 2 + r.Intn(6)
+		c.Detail = func() interface{} {
+			return map[string]interface{}{"family": "early-close", "maxConns": maxConns, "concurrent_gets": n}
+		}
+		var wg sync.WaitGroup
+		for i := 0; i < n; i++ {
+			wg.Add(1)
+			go func(i int) {
+				defer wg.Done()
+				req, resp := protocol.AcquireRequest(), protocol.AcquireResponse()
+				defer protocol.ReleaseRequest(req)
+				defer protocol.ReleaseResponse(resp)
+				req.SetRequestURI("http://peer/x")
+				req.Header.Set("X-Id", fmt.Sprintf("e%d-%d", c.G, i))
+				req.Header.Set("X-Plan", "closebefore")
+				hc.Do(context.Background(), req, resp) //nolint:errcheck
+			}(i)
+		}
+		wg.Wait()
+		worst, worstID, total := int32(0), "", int32(0)
+		d.recv.Range(func(k, v interface{}) bool {
+			x := atomic.LoadInt32(v.(*int32))
+			total += x
+			if x > worst {
+				worst, worstID = x, k.(string)
+			}
+			return true
+		})
+		w.Count("early_close_gets", int64(n))
+		w.Count("early_close_requests_seen_by_peer", int64(total))
+		if worst > 5 {
+			c.Violate("unbounded-retry", "maxConns=%d, %d concurrent GETs queueing for a connection, peer closes every connection before the first response byte: request %s reached the peer %d times (%d receipts, %d dials in all) — connections dialled for a queued caller are retried as if they had been idle in the pool", maxConns, n, worstID, worst, total, atomic.LoadInt32(&d.dialed))
+		}
+		if p := hc.PendingRequests(); p != 0 {
+			c.Violate("pending-gauge-not-zero", "PendingRequests() = %d after all calls have returned", p)
+		}
+		hc.CloseIdleConnections()
+		w.Shape(mon.Hash64("early-close", maxConns, n))
 	})
 }
 
